@@ -1144,11 +1144,19 @@ fn judge_c19_t1(h: &T1Harness, t: &mut T1, end: RunEnd) -> V3 {
         std::thread::sleep(std::time::Duration::from_micros(30));
     }
     t.sh.lock().unwrap().want_snaps = true;
+    t.mon.catch_up(&t.sh.lock().unwrap().iolog);
+    let frames_before = t.mon.frames.len();
     for name in ["connC", "connS"] {
         if let Some(i) = t.exec.tasks.iter().position(|x| x.name == name && x.fut.is_some()) {
             t.exec.force_poll(i);
             t.exec.run(2000);
         }
+    }
+    // (the same lost-wake-up probe as at the end of the X2 epilogues: nothing was scheduled, so the forced polls write nothing)
+    t.mon.catch_up(&t.sh.lock().unwrap().iolog);
+    if t.mon.frames.len() > frames_before {
+        let new: Vec<String> = t.mon.frames[frames_before..].iter().map(|f| format!("{} {}(stream {})", f.sender.name(), h2wire::frame::type_name(f.raw.ty), f.raw.stream())).collect();
+        v.push(("C19.output-waits-for-forced-poll".into(), new.iter().map(|x| x.split('(').next().unwrap_or("").to_string()).collect::<Vec<_>>().join(","), format!("at quiescence nothing was scheduled, yet forced polls of the connections wrote {:?}", new)));
     }
     let (cs, ss) = {
         let s = t.sh.lock().unwrap();
